@@ -19,6 +19,9 @@ from c18_common import pick
 
 ID = 'C05'
 GEN = ['kernels', 'solve', 'constraints']
+# the scalar kernels of functions.py this property's statement depends on (a change confined to the others is not this property's business;
+# what its own correspondence compares still is)
+KERNELS_USED = []
 PROPS = 'Props/C05.v'
 MODEL_VO = ['Model/Solve.v']
 CASE_TYPE = 'kase'
